@@ -4,8 +4,14 @@ Observation points (all reachable from the harness, no repo edit):
   * `lys.ingest` is shadowed on the INSTANCE by a recorder that sees every Waste object entering the
     organelle (also the ones built inside ingest_error / ingest_sensitive / AutophagyDaemon) and gives
     it a unique id before handing it to the real method;
-  * every entry of `lys._digesters` is wrapped: the wrapper logs (item, path, outcome) and then calls
-    either a harness stub (returns a dict / {} / raises, per item) or the shipped digester;
+  * every digester is wrapped: the wrapper logs (item, path, outcome) and then calls either a harness stub (returns a
+    dict / {} / raises, per item) or the shipped digester. The digester table is found BY SHAPE (the instance attribute
+    that maps every WasteType to a callable, whatever it is called) and its entries are wrapped in place; where no such
+    table exists the wrappers go in through the public constructor (`digesters=`) and the shipped digester is reached
+    through the public API of a one-shot donor instance (ingest + digest of that one waste);
+  * the queue content (identity-level accounting) is read from the instance attribute(s) found BY SHAPE: a list / tuple /
+    deque / dict whose elements are (or wrap) Waste objects, whatever it is called; its length is cross-checked against
+    the public getters (get_queue_status / get_statistics) at every audit. No private name of the class is used;
   * `on_toxic` is a logger (optionally raising);
   * a logging.Handler on the module's logger records WARNING+ records per call;
   * EVERY lock (threading.Lock / RLock, and Semaphore/BoundedSemaphore possibly used as a mutex) reachable from the instance - its own attributes, attributes of
@@ -27,6 +33,8 @@ object the same rule is applied by count: occurrences queued + digester invocati
 """
 from __future__ import annotations
 
+import collections
+import collections.abc
 import copy
 import logging
 import sys
@@ -62,6 +70,140 @@ def _install_handler():
         lg = logging.getLogger(LOGGER_NAME)
         lg.addHandler(_handler)
         lg.propagate = False
+
+
+# ---- structural discovery (no private name of the class under test is ever spelled out) ---------------------
+_SEQ_TYPES = (list, tuple, collections.deque)
+_qpath_cache = {}       # class -> [attribute path, ...] of the container(s) that hold the queued Waste objects
+_wiring_cache = {}      # class -> "table" | "constructor" (how the digester wrappers get in)
+_WASTE = [None]
+
+
+def _waste_class():
+    if _WASTE[0] is None:
+        from operon_ai.organelles.lysosome import Waste
+        _WASTE[0] = Waste
+    return _WASTE[0]
+
+
+def _unwrap_waste(x, W):
+    """the Waste inside a queue entry: the entry itself, a member of a tuple / list entry, or a field of a record object"""
+    if isinstance(x, W):
+        return x
+    if isinstance(x, (tuple, list)):
+        for y in x:
+            if isinstance(y, W):
+                return y
+        return None
+    d = getattr(x, "__dict__", None)
+    if isinstance(d, dict):
+        for y in d.values():
+            if isinstance(y, W):
+                return y
+    return None
+
+
+def _as_wastes(v, W):
+    """the Waste objects held by `v` (list / tuple / deque, or the values of a dict) in order; None if `v` is not a
+    container of wastes only"""
+    if isinstance(v, _SEQ_TYPES):
+        seq = list(v)
+    elif isinstance(v, dict):
+        seq = list(v.values())
+    else:
+        return None
+    for i, x in enumerate(seq):
+        if x.__class__ is not W:
+            x = _unwrap_waste(x, W)
+            if x is None:
+                return None
+            seq[i] = x
+    return seq
+
+
+def _is_helper(v):
+    return type(v).__module__.startswith("operon_ai") and hasattr(v, "__dict__") and not isinstance(v, type)
+
+
+def _follow(obj, path):
+    for k in path:
+        obj = getattr(obj, k, None)
+    return obj
+
+
+def _discover_queue_paths(lys, W):
+    """attribute paths (on the instance, or one level down in an operon_ai helper object it owns) of every NON-EMPTY
+    container that holds wastes only"""
+    paths = []
+    for k, v in list(vars(lys).items()):
+        if isinstance(v, _SEQ_TYPES) or isinstance(v, dict):
+            if v and _as_wastes(v, W):
+                paths.append((k,))
+        elif _is_helper(v):
+            for k2, v2 in list(vars(v).items()):
+                if (isinstance(v2, _SEQ_TYPES) or isinstance(v2, dict)) and v2 and _as_wastes(v2, W):
+                    paths.append((k, k2))
+    return paths
+
+
+def queue_snapshot(lys, rediscover=False):
+    """the queued Waste objects in queue order, read from the container(s) found by shape. Before the first waste
+    was ever seen queued the result is [] (every audit compares the length with the public getters)."""
+    cls = type(lys)
+    W = _waste_class()
+    paths = None if rediscover else _qpath_cache.get(cls)
+    if paths:
+        out = []
+        for p in paths:
+            ws = _as_wastes(_follow(lys, p), W)
+            if ws is None:
+                out = None
+                break
+            out += ws
+        if out is not None:
+            return out
+    found = _discover_queue_paths(lys, W)
+    if found:
+        known = _qpath_cache.get(cls) or []
+        # keep containers that are merely empty right now (still the right shape), add the newly seen ones
+        keep = [p for p in known if p not in found and _as_wastes(_follow(lys, p), W) is not None]
+        _qpath_cache[cls] = paths = keep + found
+        out = []
+        for p in paths:
+            out += _as_wastes(_follow(lys, p), W) or []
+        return out
+    return []
+
+
+def queue_len(lys, stats_getter=None):
+    """queue length for the capacity invariant: the public statistic (`stats_getter`: the unbound public get_statistics to use,
+    default the instance's own), and the length of the discovered container(s) where known"""
+    n = (stats_getter(lys) if stats_getter is not None else lys.get_statistics())["queue_size"]
+    paths = _qpath_cache.get(type(lys))
+    if paths:
+        m = 0
+        for p in paths:
+            v = _follow(lys, p)
+            if v is not None:
+                try:
+                    m += len(v)
+                except TypeError:
+                    pass
+        if m > n:
+            n = m
+    return n
+
+
+def _digester_table(lys, WT):
+    """the instance attribute that maps every WasteType to a callable, found by shape"""
+    for v in vars(lys).values():
+        if isinstance(v, collections.abc.MutableMapping) and len(v) >= len(WT):
+            try:
+                if all(callable(v[wt]) for wt in WT):
+                    return v
+            except (KeyError, TypeError):
+                continue
+    return None
 
 
 def _light_stack(limit=8):
@@ -346,11 +488,30 @@ class Rig:
         self.threaded = threaded
         self.WT = [getattr(lmod.WasteType, t) for t in TYPES]
         cls = cls or lmod.Lysosome
-        self.lys = lys = cls(max_queue_size=cfg["max"], auto_digest_threshold=cfg["th"], retention_hours=cfg["ret_h"],
-                             on_toxic=self._on_toxic, silent=True)
         self.retention_s = cfg["ret_h"] * 3600.0
         self._alloc = threading.Lock()
         self.stats = {}
+        self.by_obj = {}         # id(waste object) -> [Item per ingestion of that object, in order]
+        self.inprog = {}         # thread ident -> Item whose digester invocation is running in that thread
+        self.cur = {}
+        self.problems = []      # (mechanism, what)
+        # --- wrap every digester. Preferred: the table found by shape on the instance (entries wrapped in place, so the shipped
+        # digesters stay bound to the instance under test); otherwise through the public constructor argument.
+        stub_mode = cfg.get("mode", "stub") == "stub"
+        kw = dict(max_queue_size=cfg["max"], auto_digest_threshold=cfg["th"], retention_hours=cfg["ret_h"], on_toxic=self._on_toxic, silent=True)
+        lys = table = None
+        if _wiring_cache.get(cls) != "constructor":
+            lys = cls(**kw)
+            table = _digester_table(lys, self.WT)
+        if table is not None:
+            _wiring_cache[cls] = "table"
+            for wt in self.WT:
+                table[wt] = self._make_digester(table[wt], stub_mode and wt is not self.WT[TOXIC])
+        else:
+            _wiring_cache[cls] = "constructor"
+            self._bump("digesters_wired_through_constructor")
+            lys = cls(digesters={wt: self._make_digester(self._shipped_via_donor, stub_mode and wt is not self.WT[TOXIC]) for wt in self.WT}, **kw)
+        self.lys = lys
         self.unwrapped = set()
         self.slots = []          # [holder, attr, name, wrapped primitive, wrapper, original class/module-level primitive or None]
         self.locks = []
@@ -358,21 +519,13 @@ class Rig:
         self.lock_factory = lock_factory
         self.wrap_locks()
         self.items = []
-        self.by_obj = {}         # id(waste object) -> [Item per ingestion of that object, in order]
         self.wastes = []         # every Waste object that entered, in ingestion order (twin / same-object operations pick from it)
-        self.cur = {}
-        self.inprog = {}         # thread ident -> Item whose digester invocation is running in that thread
-        self.problems = []      # (mechanism, what)
         self.trace = []
         self.autophagy_unattributed = 0     # removals reported by autophagy calls whose before/after queue was not observable (thread mode)
         self.last_ctx = None
         self.daemon = None
         self.reached = set()    # "auto", "emergency", ...
-        # --- wrap every digester (instance attribute), shadow ingest on the instance
-        for wt in self.WT:
-            shipped = lys._digesters[wt]
-            use_stub = cfg.get("mode", "stub") == "stub" and wt is not self.WT[TOXIC]
-            lys._digesters[wt] = self._make_digester(shipped, use_stub)
+        # --- shadow the public ingest on the instance
         self._real_ingest = lys.ingest          # bound method of the (possibly contract-wrapped) class
         lys.ingest = self._ingest_recorder
 
@@ -403,7 +556,7 @@ class Rig:
                 setattr(holder, attr, w)
                 self.slots.append([holder, attr, name, raw, w, original])
                 self.locks.append(w)
-                if attr == "_lock" and holder is self.lys or isinstance(self.lock, NoLock):
+                if isinstance(self.lock, NoLock):       # (instance attributes come first in lock_slots)
                     self.lock = w
 
     def rewrap(self, lock_factory):
@@ -429,6 +582,13 @@ class Rig:
         for holder, attr, name, raw, w, original in self.slots:
             if original is not None:
                 setattr(holder, attr, original)
+
+    def queue(self):
+        """snapshot of the queued Waste objects (container found by shape, see queue_snapshot)"""
+        return queue_snapshot(self.lys)
+
+    def qlen(self):
+        return len(queue_snapshot(self.lys))
 
     def any_locked(self):
         return any(l.depth > 0 for l in self.locks)
@@ -481,8 +641,9 @@ class Rig:
             self._bump("same_object_reingested")
         if c is not None:
             c["item"] = item
-            c["qlen_at_ingest"] = len(self.lys._queue)
-            c["same_in_queue_at_ingest"] = sum(1 for x in self.lys._queue if x is waste)
+            q = self.queue()
+            c["qlen_at_ingest"] = len(q)
+            c["same_in_queue_at_ingest"] = sum(1 for x in q if x is waste)
         return self._real_ingest(waste)
 
     def _path(self, c, waste):
@@ -506,7 +667,7 @@ class Rig:
                         return "auto"
                     f = f.f_back
                 return "emergency"
-            if waste is w or it.log or any(x is w for x in self.lys._queue):
+            if waste is w or it.log or any(x is w for x in self.queue()):
                 return "auto"
             return "emergency"
         return "outside"
@@ -550,6 +711,25 @@ class Rig:
             entry[1] = "ok"
             return res
         return digester
+
+    def _shipped_via_donor(self, waste):
+        """the shipped digestion of one waste through PUBLIC API only (used when the instance has no digester table to wrap):
+        a fresh donor instance with default digesters and the same on_toxic ingests the waste and digests it"""
+        self._bump("shipped_digestions_via_donor")
+        donor = self.lmod.Lysosome(max_queue_size=1 << 30, auto_digest_threshold=1 << 30, retention_hours=1e6, on_toxic=self._on_toxic, silent=True)
+        for holder, attr, name in lock_slots(donor, None, "donor"):
+            raw = getattr(holder, attr)
+            if holder is donor and not is_semaphore(raw):       # private to this call: re-acquiring a held non-reentrant lock can never succeed
+                setattr(donor, attr, FastDetectingLock(raw, name))
+        donor.ingest(waste)
+        res = donor.digest()
+        if MARK in repr(donor.get_recycled()):
+            self.problem("sensitive-in-recycling-bin", "the recycling bin carries a sensitive marker: %s" % repr(donor.get_recycled())[:300])
+        if res.errors:
+            raise StubFailure(res.errors[0])
+        if res.disposed != 1:
+            raise StubFailure("donor disposed %r items" % (res.disposed,))
+        return dict(res.recycled)
 
     def _on_toxic(self, waste):
         grp = self.by_obj.get(id(waste))
@@ -624,9 +804,9 @@ class Rig:
             c["behav"] = op[-1]
         self.last_ctx = c
         self._rescan()
-        before = list(lys._queue) if (kind == "autophagy" and not self.threaded) else None
+        before = self.queue() if (kind == "autophagy" and not self.threaded) else None
         if kind == "digest" and op[1] and not self.threaded:
-            q0 = lys._queue
+            q0 = self.queue()
             if len(q0) > op[1] and any(r == b for r in q0[op[1]:] for b in q0[:op[1]]):
                 self._bump("partial_digests_splitting_equal_wastes")      # the situation in which removal by value and by position differ
         now_v = self.clock.time()
@@ -708,7 +888,7 @@ class Rig:
             for p in paths:
                 self.reached.add(p)
             if digs and not self.threaded:
-                left = self.lys._queue
+                left = self.queue()
                 if left and any(w == self.items[e[1]].waste for e in digs for w in left):
                     self._bump("ingest_digests_splitting_equal_wastes")
             # a digester failure during the auto-digest must be reported: a WARNING+ record on the module logger
@@ -733,7 +913,7 @@ class Rig:
                 self.problem("autophagy-digests", "autophagy invoked digesters")
             if before is not None:
                 after_n = {}
-                for w in self.lys._queue:
+                for w in self.queue():
                     after_n[id(w)] = after_n.get(id(w), 0) + 1
                 removed = []
                 for w in before:            # multiset difference before - after, by identity
@@ -767,9 +947,17 @@ class Rig:
         if held:
             self.problem("lock-left-held", "%s still held although no call is in progress" % ", ".join(held))
             return
-        snap = list(lys._queue)
         status = lys.get_queue_status()
         st = lys.get_statistics()
+        snap = self.queue()
+        if len(snap) != status["size"] or len(snap) != st["queue_size"]:
+            # before this is judged: look again for Waste-holding containers (one that was empty when the shape was first recognised)
+            snap = queue_snapshot(lys, rediscover=True)
+            if not _qpath_cache.get(type(lys)) and status["size"] == st["queue_size"] and isinstance(status["size"], int) and status["size"] > 0:
+                # the getters agree on a non-empty queue but no attribute of the instance has the shape of a waste container:
+                # the identity-level accounting cannot be applied to this representation (no verdict)
+                self._bump("queue_container_not_found")
+                return None
         mx = self.cfg["max"]
         if len(snap) > mx and mx >= 2:
             self.problem("queue-over-capacity", "queue holds %d items, max_queue_size=%d" % (len(snap), mx))
